@@ -55,7 +55,7 @@ META = dict(
          "ends the connection after the rest of the message was discarded; extended frames (tx, block, unknown; ready or not) consume "
          "24+20+length; the deferred DiscardInputWithCounter is exact whenever the handler stayed within the declared length; no input blocks the read loop (C14_never_wedges); in every reachable state "
          "a ping is answered by the pong with its nonce and the next message starts right behind it (C14_ping_after_any_sequence). The byte-level model is tied to handlers.go/messages.go by differential "
-         "runs of a scripted peer with a barrier ping after every message (0 divergences required).",
+         "runs of a scripted peer with a barrier ping after every message (0 divergences required); a fifth of the messages, and dedicated scripts, reach the node in pieces cut anywhere in the header or payload.",
     note=COMMON_NOTE + "Hypotheses worth knowing: the requested-block theorems are for transactions whose declared counts and script lengths ask the decoder for at most M bytes with M <= env.mem and M <= 2^40 "
          "(SizeOk; beyond that the dependency's decoder may abort: C15, known finding alloc-declared-count); C14_headers_exact is for a ready node; a cancel that arrives while the count of the requested block is being read "
          "closes the connection (C16Node.C16_cancel_in_progress_ends), so framing after it is moot. NOT exact, by the code: a requested block whose count announces MORE transactions than the declared length holds is read "
